@@ -155,6 +155,10 @@ var operators = []map[string]tokType{
 		"~>": tokBacon,
 		",":  tokComma,
 	},
+
+	// Composer's constraint operators are not implemented yet; the empty
+	// set makes every operator an error instead of an out-of-range index.
+	Composer: {},
 }
 
 func (sys System) typeOf(r rune) uint8 {
